@@ -1,1 +1,117 @@
-def main : IO Unit := pure ()
+import NfcVerif.Model.HistC01
+import NfcVerif.Model.T3LinkC01
+open NfcVerif NfcVerif.Tlv NfcVerif.T34 NfcVerif.Hist
+
+/-!
+Line-protocol driver of the C01 models that are not part of the shared drivers `drv_t12` / `drv_t34`:
+
+  h12 <t2|t1s|t1d> <mem> <attempts>   history of assignments through one Type 1 / Type 2 Tag object
+  h3  <mem> <attempts>                 ... Type 3 Tag object (also the emulated tag: mem = block store)
+  h4  <var> <cc> <file> <fid> <mle> <mlc> <attempts>
+        -> <res> <cmds> | ... | <what a fresh reader sees>      (none / exc Name when activation finds no NDEF)
+     attempts = <hex>:<n | l<k> | e<k>>,...   n: no fault, l<k>: command k not executed, e<k>: executed, answer lost
+  lnk.see <idm+pmm+sys> <store>        Type 3 reader model talking to the emulation model frame by frame
+  lnk.set <idm+pmm+sys> <store> <data> -> <res> frames=<n> store=<hex> | none | exc Name
+-/
+
+def cfgOf (k : String) : Option Cfg :=
+  if k = "t2" then some t2Cfg else if k = "t1s" then some (t1Cfg 1) else if k = "t1d" then some (t1Cfg 8) else none
+
+def insRange (r : Nat × Nat) : List (Nat × Nat) → List (Nat × Nat)
+  | [] => [r]
+  | x :: xs => if r.1 ≤ x.1 then r :: x :: xs else x :: insRange r xs
+
+def mergeRanges : List (Nat × Nat) → List (Nat × Nat)
+  | [] => []
+  | [x] => [x]
+  | x :: y :: rest => if y.1 ≤ x.2 then mergeRanges ((x.1, max x.2 y.2) :: rest) else x :: mergeRanges (y :: rest)
+termination_by l => l.length
+
+def canonSkip (s : Skip) : String :=
+  let rs := mergeRanges ((s.filter fun r => r.1 < r.2).foldr insRange [])
+  if rs.isEmpty then "-" else ",".intercalate (rs.map fun r => s!"{r.1}-{r.2}")
+
+def joinC (l : List String) : String := if l.isEmpty then "-" else ",".intercalate l
+
+def showRes : Py Unit → String
+  | .ok _ => "ok"
+  | .error (.tagCmd _) => "fail"
+  | .error e => "exc " ++ e.name
+
+def showRead (c : Cfg) (m : Bytes) : String :=
+  match readNdef c m with
+  | .error e => "exc " ++ e.name
+  | .ok none => "none"
+  | .ok (some L) =>
+    s!"L {L.off} {L.cap} {if L.readable then 1 else 0} {if L.writeable then 1 else 0} {L.areaEnd} {canonSkip L.skip} {toHex L.ndef}"
+
+def parseFault (s : String) : Option (Option Fault) :=
+  if s = "n" then some none
+  else match s.toList with
+    | 'l' :: r => (String.ofList r).toNat?.map fun k => some ⟨k, false⟩
+    | 'e' :: r => (String.ofList r).toNat?.map fun k => some ⟨k, true⟩
+    | _ => none
+
+def parseAttempts (s : String) : Option (List (Bytes × Option Fault)) :=
+  (s.splitOn ",").mapM fun a =>
+    match a.splitOn ":" with
+    | [d, f] => match parseHex d, parseFault f with
+      | some d, some f => some (d, f)
+      | _, _ => none
+    | _ => none
+
+def h12 (c : Cfg) (m : Bytes) (atts : List (Bytes × Option Fault)) : String :=
+  match readNdef c m with
+  | .error e => "exc " ++ e.name
+  | .ok none => "none"
+  | .ok (some L) =>
+    let r := history c L (fresh m) atts
+    " | ".intercalate ((r.2.map fun a => showRes a.2 ++ " " ++ joinC (a.1.map fun x => s!"{x.1}:{toHex x.2}"))
+      ++ [showRead c r.1.tag])
+
+def h3 (m : Bytes) (atts : List (Bytes × Option Fault)) : String :=
+  match T3.readNdef m with
+  | .error e => "exc " ++ e.name
+  | .ok none => "none"
+  | .ok (some nd) =>
+    let r := t3History nd.seen m atts
+    " | ".intercalate ((r.2.map fun a => showRes a.2 ++ " " ++ joinC (a.1.map fun c => s!"{c.blk}+{c.n}:{toHex c.data}"))
+      ++ [showPy showSeen (T3.see r.1)])
+
+def parseVar (s : String) : Option T4.Variant :=
+  match s.toList with
+  | [a, b, c] => some ⟨a = '1', b = '1', c = '1'⟩
+  | _ => none
+
+def h4 (v : T4.Variant) (cd : T4.Card) (atts : List (Bytes × Option Fault)) : String :=
+  match T4.readNdef v cd with
+  | .error e => "exc " ++ e.name
+  | .ok none => "none"
+  | .ok (some nd) =>
+    let r := t4History v cd nd cd.file atts
+    " | ".intercalate ((r.2.map fun a => showRes a.2 ++ " " ++ joinC (a.1.map fun c => s!"{c.off}:{toHex c.data}"))
+      ++ [showPy showSeen (T4.see v { cd with file := r.1 })])
+
+def emuOf (ids store : Bytes) : T3Emu.Emu := ⟨ids.take 8, (ids.drop 8).take 8, ids.drop 16, store⟩
+
+def handle (line : String) : String :=
+  match line.splitOn " " with
+  | ["h12", k, mh, a] => match cfgOf k, parseHex mh, parseAttempts a with
+    | some c, some m, some a => h12 c m a | _, _, _ => "bad-op"
+  | ["h3", mh, a] => match parseHex mh, parseAttempts a with
+    | some m, some a => h3 m a | _, _ => "bad-op"
+  | ["h4", v, cc, f, fid, e, c, a] =>
+    match parseVar v, parseHex cc, parseHex f, parseHex fid, e.toNat?, c.toNat?, parseAttempts a with
+    | some v, some cc, some f, some fid, some e, some c, some a => h4 v ⟨cc, f, fid, e, c⟩ a
+    | _, _, _, _, _, _, _ => "bad-op"
+  | ["lnk.see", ids, st] => match parseHex ids, parseHex st with
+    | some ids, some st => showPy showSeen (T3Link.see (emuOf ids st)) | _, _ => "bad-op"
+  | ["lnk.set", ids, st, d] => match parseHex ids, parseHex st, parseHex d with
+    | some ids, some st, some d => (match T3Link.setOctets (emuOf ids st) d with
+      | .error e => "exc " ++ e.name
+      | .ok none => "none"
+      | .ok (some t) => showRes t.res ++ s!" frames={t.frames} store=" ++ toHex t.emu.store)
+    | _, _, _ => "bad-op"
+  | _ => "bad-op"
+
+def main : IO Unit := runDriver handle
